@@ -8,14 +8,14 @@ From Qv Require Import Common.Bytes Gen.GenNetio Gen.GenSession Model.NetRead Mo
     one leading dot removed ([stored]); [seen] are precisely the lines the client transmitted before the lone dot
     ([wire seen ++ ".CRLF"] is what was consumed from the connection), none of them contains CR or LF or is
     the lone dot.  For every reader state, byte stream and segmentation. *)
-Theorem C02_message : forall fuel o wfail r trace msg sz seen r',
-  rstate_ok r -> data_loop fuel o wfail r trace = (D_eod msg sz seen, r') ->
+Theorem C02_message : forall fuel o dc r trace msg sz seen r',
+  rstate_ok r -> data_loop fuel o dc r trace = (D_eod msg sz seen, r') ->
   msg = trace ++ stored seen
   /\ total r = wire seen ++ [DOT; CR; LF] ++ total r'
   /\ Forall data_line seen.
 Proof.
-  intros fuel o wfail r trace msg sz seen r' Hok H.
-  pose proof (data_loop_spec fuel o wfail r trace _ r' Hok H) as X. cbn in X. tauto.
+  intros fuel o dc r trace msg sz seen r' Hok H.
+  pose proof (data_loop_spec fuel o dc r trace _ r' Hok H) as X. cbn in X. tauto.
 Qed.
 Print Assumptions C02_message.
 
@@ -46,8 +46,8 @@ Print Assumptions C02_trace_spf_none.
 Example C02_nonvacuous :
   let o := {| o_helo := fun _ => true;
               o_addr := fun _ arg => match arg with 60%N :: c :: _ => AP_ok [c] None RLocal | _ => AP_nobracket end;
-              o_ext := fun _ => Ext_ok 0 0; o_relay := 0%Z; o_mx := fun _ => 0; o_qq := fun _ => QQ_ok;
-              o_databytes := 0%N; o_liphost := []; o_trace := fun _ _ _ _ _ => [88; 10]%N |} in
+              o_ext := fun _ => Ext_ok 0 0 None; o_relay := 0%Z; o_mx := fun _ => 0; o_qq := fun _ => QQ_ok;
+              o_databytes := 0%N; o_liphost := []; o_check2822 := false; o_trace := fun _ _ _ _ _ => [88; 10]%N |} in
   filter (fun e => match e with Handoff _ _ => true | _ => false end)
     (run_session o [ [72;69;76;79;32;120;13;10]; [77;65;73;76;32;70;82;79;77;58;60;97;62;13;10];
                      [82;67;80;84;32;84;79;58;60;98;62;13;10]; [68;65;84;65;13;10];
